@@ -141,6 +141,64 @@ def _damage(frame, covered_from, rng, thorough):
     return out
 
 
+def _crc_ref(data, reg=0xFFFF):
+    """independent bitwise CRC-16/MODBUS register (reflected 0xA001)"""
+    for b in data:
+        reg ^= b
+        for _ in range(8):
+            reg = (reg >> 1) ^ 0xA001 if reg & 1 else reg >> 1
+    return reg
+
+
+_TAB = None
+
+
+def _tab():
+    global _TAB
+    if _TAB is None:
+        _TAB = [_crc_ref([i], 0) for i in range(256)]
+    return _TAB
+
+
+def _step(reg, b):
+    return (reg >> 8) ^ _tab()[(reg ^ b) & 0xFF]
+
+
+def _special_register_frames(gen, rng):
+    """well-formed frames of an unregistered type whose CRC register after the six covered header bytes takes a special value
+    (0x0000, 0xFFFF, 0x0001, 0x8000, 0xA001, 0x00FF, 0xFF00): intermediate register values that a wrong implementation is
+    likely to mishandle. Found by searching packet id x unregistered type x length (about 2.6 million headers)."""
+    specials = {0x0000, 0xFFFF, 0x0001, 0x8000, 0xA001, 0x00FF, 0xFF00}
+    registered = {0x1F, 0x2A, 0x2B, 0x2C, 0x2D, 0x36, 0x37} if gen == 4 else {0x1F, 0xC0}
+    out = {}
+    r2 = _step(_step(0xFFFF, 0xB0), 0x80)
+    for pid in range(256):
+        r3 = _step(r2, pid)
+        for mid in range(256):
+            if mid in registered:
+                continue
+            r4 = _step(r3, mid)
+            r5 = _step(r4, 0)
+            for ln in range(41):
+                reg = _step(r5, ln)
+                if reg in specials and len(out.setdefault(reg, [])) < 6:
+                    hdr6 = bytes([0xB0, 0x80, pid, mid, 0, ln])
+                    payload = bytes(rng.randrange(256) for _ in range(ln))
+                    crc = _crc_ref(payload, reg)
+                    body = hdr6 + payload + bytes([crc >> 8, crc & 0xFF])
+                    if gen == 4:
+                        fr = b"\x55\x55" + body
+                    else:
+                        dl = 10 + ln + 2
+                        fr = b"\x55\x55\x55\xab\x00\x00" + bytes([dl >> 8, dl & 0xFF]) * 2 + b"\x55\x55\x55\xaa" + body
+                    out[reg].append(fr)
+    res = []
+    for reg in sorted(out):
+        for fr in out[reg]:
+            res.append((reg, fr))
+    return res
+
+
 def _receive_path(ctx, thorough):
     """damaged frames through the real receive path: never delivered; the connection is re-established and a later intact frame is delivered"""
     import sockcheck
@@ -163,6 +221,23 @@ def _receive_path(ctx, thorough):
                     sc.append(("adv", 4))
                 items.append(("faults", sc + [("heal",)]))
                 meta.append((kind, fr, dmg))
+        # special intermediate register values: the intact frame must be delivered, a check-byte-damaged one must not
+        intact = []
+        for reg, fr in _special_register_frames(gen, ctx.rng)[: (60 if thorough else 21)]:
+            intact.append((reg, fr))
+            f = bytearray(fr); f[-1] ^= 0x01; f[-2] ^= 0x80
+            items.append(("faults", [("net", "accept"), ("open",), ("adv", 8), ("peerbytes", bytes(f).hex()), ("adv", 4), ("heal",)]))
+            meta.append(("check@reg=%04x" % reg, fr, bytes(f)))
+        intact_scripts = [[("net", "accept"), ("open",), ("adv", 8), ("peerbytes", fr.hex()), ("adv", 8)] for _, fr in intact]
+        for (reg, fr), r in zip(intact, sockcheck.run_scripts(intact_scripts, gen=gen)):
+            ctx.case(("rx-intact", gen, fr))
+            ctx.count("rx:intact@special-register")
+            if "error" in r:
+                raise RuntimeError(r["error"])
+            if len(r["delivered"]) != 1:
+                ctx.violation("C06:intact-frame-rejected", "an intact frame whose CRC register after the header is 0x%04x was not delivered: %s" % (reg, fr.hex()),
+                              kind="history", monitor="c06", script=[("net", "accept"), ("open",), ("adv", 8), ("peerbytes", fr.hex()), ("adv", 8)], gen=gen,
+                              implementation_output=r["obs"], spec_verdict="delivered once")
         results = sockcheck.run_scripts([s for _, s in items], gen=gen)
         spec = ctx.oracle(["crc " + _hex(d[covered_from:-2]) for _, _, d in meta])
         obs_list = []
